@@ -108,6 +108,10 @@ def install(rmod, log, ident):
         running task - whatever API made it (asyncio.create_task, loop.create_task, ensure_future)"""
         if r == "pf":
             log.add("la.new")
+            # the look-ahead fetch ended because the broker's stream ended (used by the mapping only when the prefetcher
+            # does not wait through asyncio.wait, see to_lts)
+            t.add_done_callback(lambda _t: log.add("la.exh") if not _t.cancelled()
+                                and isinstance(_t.exception(), StopAsyncIteration) else None)
         elif r == "rn":
             # the task is created for the message the runner has just taken from the queue.  The callback coroutine may
             # be handed over directly (LAST_CB says for which message it was made) or wrapped by the runner in a coroutine of
@@ -164,6 +168,12 @@ def install(rmod, log, ident):
     shim.Queue = LQueue
     shim.wait = wait
     rmod.asyncio = shim
+    # code of the receiver that lives (or has been moved) in another module of the package meets the same stand-ins
+    import patchall
+    pkg = rmod.__name__.rsplit(".", 1)[0]
+    patchall.replace_everywhere(asyncio, shim, prefix=pkg)
+    patchall.replace_everywhere(asyncio.Queue, LQueue, prefix=pkg)
+    patchall.replace_everywhere(asyncio.wait, wait, prefix=pkg)
     return shim
 
 
@@ -213,7 +223,7 @@ LAST_GET = {}
 
 # ----------------------------------------------------------------------------------------------------------
 # raw log -> RecvLTS events (Coq literals)
-LTS_TAGS = frozenset(["cb.wrong", "STOP", "TAKE", "END", "RETURN", "fin?", "la.new", "semp.acq", "semp.rel", "sem.acq", "sem.rel", "poll", "exh",
+LTS_TAGS = frozenset(["la.exh", "cb.wrong", "STOP", "TAKE", "END", "RETURN", "fin?", "la.new", "semp.acq", "semp.rel", "sem.acq", "sem.rel", "poll", "exh",
                       "q.put", "q.get", "spawn", "cb.end", "cb.done", "waited", "CUTMARK"])
 
 
@@ -246,6 +256,20 @@ def to_lts(ev, limited):
     # body.in / body.out from its worker thread, and such an entry can land between the two raw entries of one task step
     # (seen under load: a spurious EBad)
     ev = [e for e in ev if e[1] in LTS_TAGS]
+    # How did the prefetcher's wait for its look-ahead fetch end?  With asyncio.wait (the unchanged code) the wait stand-in
+    # says so (`poll`, `exh`) and the grouping rules above apply.  A prefetcher that waits some other way (wait_for on a
+    # shielded future, asyncio.timeout, ...) logs no `poll` at all; then the same LTS events are read off what the prefetcher
+    # does next - all of it observed on objects, not on API names:
+    #     semp.rel(pf) not part of an exit            -> EPfTimeout
+    #     [la.new], q.put i (pf)                      -> EPfGot i newla
+    #     q.put DONE, semp.rel(pf)                    -> EPfExit, preceded by EPfExhausted when the look-ahead fetch has
+    #                                                    ended with StopAsyncIteration (la.exh) and the exit was not
+    #                                                    decided by the finish check
+    # The LTS itself demands LAPending / LAHas i / LAEnded for these steps from the broker-side events (TAKE, END).
+    derived = not any(e[1] == "poll" for e in ev)
+    if not derived:
+        ev = [e for e in ev if e[1] != "la.exh"]
+    exh_pending = False
     out = []
     i, n = 0, len(ev)
     first_la = True
@@ -270,9 +294,14 @@ def to_lts(ev, limited):
             out.append("EReturn")
         elif t == "fin?":
             out.append("EPfCheck %s" % ("true" if a else "false"))
+        elif t == "la.exh":
+            exh_pending = True
         elif t == "la.new":
             if first_la and not any(x.startswith("EPf") for x in out):
                 first_la = False
+            elif derived and tag(i + 1) == "q.put" and ev[i + 1][2] != "DONE" and ev[i + 1][3] == "pf":
+                out.append("EPfGot %d true" % ev[i + 1][2])
+                i += 1
             else:
                 bad("la.new outside a fetch")
         elif t == "semp.acq":
@@ -305,8 +334,12 @@ def to_lts(ev, limited):
                         bad("poll done without put")
         elif t == "q.put":
             if a == "DONE" and tag(i + 1) == "semp.rel" and ev[i + 1][2] == "pf":
+                if derived and exh_pending and [x for x in out if x.startswith("EPf")][-1:] != ["EPfCheck true"]:
+                    out.append("EPfExhausted")
                 out.append("EPfExit")
                 i += 1
+            elif derived and a != "DONE" and b == "pf":
+                out.append("EPfGot %d false" % a)
             else:
                 bad("stray q.put %r" % (a,))
         elif t == "sem.acq":
@@ -318,6 +351,8 @@ def to_lts(ev, limited):
         elif t == "semp.rel":
             if a == "rn" and not limited:
                 out.append("ERnAcquire")
+            elif derived and a == "pf":
+                out.append("EPfTimeout")
             else:
                 bad("stray semp.rel by %s" % a)
         elif t == "q.get":
